@@ -276,6 +276,27 @@ class _Item:
         return f"I{self.idx}@{self.pos}"
 
 
+class _CountdownItem(_Item):
+    """a Bounded item that also has a LENGTH = the refinement steps it has left (like graphtage's own edit
+    collections, which define __len__): it is FALSY once converged.  No result may depend on an item's truth value."""
+
+    def __len__(self):
+        return len(self.ranges) - 1 - self.pos
+
+
+class _FalsyItem(_Item):
+    """a Bounded item whose truth value is always False (like a converged IterativeTighteningSearch)"""
+
+    def __bool__(self):
+        return False
+
+
+def _mk_item(i, t, case):
+    # deterministic per case: the kind of every item derives from the case content
+    k = (len(case["items"]) * 7 + i * 3 + len(t) + (1 if case.get("flag") else 0)) % 4
+    return (_Item, _CountdownItem, _FalsyItem, _Item)[k](i, t)
+
+
 def _state(items):
     return {"pos": [it.pos for it in items], "calls": [it.calls for it in items]}
 
@@ -284,7 +305,7 @@ def impl(case):
     import graphtage.bounds as B
     import graphtage.search as S
     op = case["op"]
-    items = [_Item(i, t) for i, t in enumerate(case["items"])]
+    items = [_mk_item(i, t, case) for i, t in enumerate(case["items"])]
     obs = {}
     if op in ("lt", "le"):
         c1, c2 = sorted([B.BoundedComparator(None), B.BoundedComparator(None)], key=id)
